@@ -22,6 +22,11 @@
 (*             1 = fresh objects, enforcement off, 2 = same object continues *)
 (*             3 = (k = 0) the same objects set up and run again from the    *)
 (*             start image after a set_up and run with other subsets         *)
+(*             4 = (k = 0) FRESH objects with the settings of this Instance, *)
+(*             which describes RE-USED objects (reuse = TRUE: the objects of  *)
+(*             the previous Instance after one setting was changed through   *)
+(*             the setters and a new set_up): the re-used objects' run must  *)
+(*             be the fresh objects' run                                     *)
 (*   Cont      an image saved by the resumed run after sub-iteration j       *)
 (* Unexplained lines are collected with a class: "new" (violation),          *)
 (* "domain" (the step is outside the range in which TLC can evaluate the     *)
@@ -37,9 +42,12 @@ SysOf(r) == [id |-> r.id, tof |-> r.tof, nv |-> r.nv, numViews |-> r.numViews, m
 InstOf(r, s) == [sysid |-> r.sys, mode |-> r.mode, N |-> r.N, startSubset |-> r.startSubset, additive |-> r.additive, uss |-> r.uss,
                  prior |-> r.prior, mult |-> r.mult, iuf |-> r.iuf, iif |-> r.iif, eip |-> r.eip, K |-> r.K,
                  a |-> r.a, ef |-> r.ef, y |-> IF Has(r, "y") THEN r.y ELSE <<>>,
-                 zero |-> FALSE, maxSeg |-> s.maxSegData]
+                 \* "convention: if -1, use get_max_segment_num()"
+                 zero |-> IF Has(r, "zero") THEN r.zero ELSE FALSE,
+                 maxSeg |-> IF Has(r, "maxSeg") /\ r.maxSeg >= 0 THEN r.maxSeg ELSE s.maxSegData]
 ShapeOk(r, s) ==
   /\ s # NoSys /\ r.sys = s.id /\ ~s.tof
+  /\ (Has(r, "maxSeg") => r.maxSeg \in -1..s.maxSegData)
   /\ r.mode \in {"exact", "free"} /\ r.ik = IK /\ r.gk = GK /\ r.lk = LK /\ r.K >= 1
   /\ InstanceOk7(s, [N |-> r.N, startSubset |-> r.startSubset, a |-> r.a, ef |-> r.ef, prior |-> r.prior, iuf |-> r.iuf, iif |-> r.iif])
   /\ (r.additive \/ \A b \in 1..Len(r.a) : r.a[b] = 0)
@@ -93,15 +101,15 @@ StepClass(r) ==
   IF 1 \in verdicts THEN << "new", 1, ll, 0 >>
   ELSE IF 2 \in verdicts THEN << "domain", 0, ll, 0 >>
   \* "without additive term the sensitivity-weighted image sum equals the total of the measured counts after every full-data update"
-  ELSE IF I.N = 1 /\ I.prior = 0 /\ NoAdditive /\ CountsSeen(sys, prev, y)
-       THEN (IF PreservesCounts(sys, st, y, r.out, 1) THEN << "ok", 1, ll, 1 >> ELSE << "new", 1, ll, 1 >>)
+  ELSE IF I.N = 1 /\ I.prior = 0 /\ NoAdditive /\ CountsSeen(sys, I, prev, y)
+       THEN (IF PreservesCounts(sys, I, st, y, r.out, 1) THEN << "ok", 1, ll, 1 >> ELSE << "new", 1, ll, 1 >>)
   ELSE << "ok", 1, ll, 0 >>
 
 (* ---- restart --------------------------------------------------------------------------------- *)
 NoRes == [k |-> -1, variant |-> -1, changed |-> FALSE]
 ResumeShape(r) ==
   /\ I # NoInst /\ ready /\ I.mode = "free" /\ Has(r, "err") /\ ~r.err
-  /\ r.variant \in 0..3 /\ r.k \in DOMAIN saved /\ (IF r.variant = 3 THEN r.k = 0 ELSE r.k >= 1) /\ r.k < I.K
+  /\ r.variant \in 0..4 /\ r.k \in DOMAIN saved /\ (IF r.variant >= 3 THEN r.k = 0 ELSE r.k >= 1) /\ r.k < I.K
   /\ BitsOk(r, "fromh", "froml") /\ BitsOk(r, "afterh", "afterl")
 ResumeClass(r) ==
   IF ~ResumeShape(r) THEN "new"
@@ -111,7 +119,7 @@ ResumeClass(r) ==
   \* estimate to small positive ones" when the positivity condition is enforced (variant 0: as configured); leaving
   \* them alone on a resume is accepted as well (that is what the restart clause needs, see notes/C07-fix-1.diff)
   ELSE IF \A v \in 1..sys.nv :
-            IF Positive(r.fromh[v], r.froml[v]) \/ ~(r.variant \in {0, 3} /\ I.eip)
+            IF Positive(r.fromh[v], r.froml[v]) \/ ~(r.variant \in {0, 3, 4} /\ I.eip)
             THEN r.afterh[v] = r.fromh[v] /\ r.afterl[v] = r.froml[v]
             ELSE Positive(r.afterh[v], r.afterl[v]) \/ (r.afterh[v] = r.fromh[v] /\ r.afterl[v] = r.froml[v])
        THEN "ok" ELSE "new"
